@@ -3,6 +3,7 @@
 -/
 import Proofs.Skip
 import Proofs.RoundTrip
+import Props.C08
 namespace Scale.C18
 open Scale
 
@@ -56,6 +57,21 @@ theorem skip_fails_iff_decode_fails (ty : Ty) (bs : Bytes) :
         | ok v => obtain ⟨u, hu⟩ := a2 v r2 hd; rw [hs] at hu; cases hu
         | err => rfl
         | panic => rfl
+
+/-- Skipping through ANY faithful input (a reader of unknown length, a chunked reader, the shared
+    buffer, any stack of non-binding wrappers): it succeeds exactly when decoding from the slice of
+    the same bytes succeeds, and then leaves exactly the bytes that decoding leaves. -/
+theorem skip_any_input {σ : Type} {I : InputOps σ} {R : Bytes → σ → Prop} (hI : Faithful I R) (ty : Ty)
+    (bs : Bytes) (s : σ) (hr : R bs s) :
+    (run I (Impl.skipP ty) s).1.isOk = (decode ty bs).1.isOk ∧
+    (∀ v r, decode ty bs = (.ok v, r) → R r (run I (Impl.skipP ty) s).2) := by
+  obtain ⟨e, k⟩ := C08.decode_input_independent hI (Impl.skipP ty) bs s hr
+  refine ⟨?_, fun v r h => ?_⟩
+  · rw [e]; exact skip_fails_iff_decode_fails ty bs
+  · have hs := (skip_agrees_with_decode ty bs).2 v r h
+    have := k () (by rw [show run sliceInput (Impl.skipP ty) bs = skip ty bs from rfl, hs])
+    rw [show run sliceInput (Impl.skipP ty) bs = skip ty bs from rfl, hs] at this
+    exact this
 
 /-- When a type reports a fixed encoded size, every value has that size. -/
 theorem fixed_size_exact (ty : Ty) (n : Nat) (h : Impl.encodedFixedSize ty = some n) (v : Val)
